@@ -25,7 +25,9 @@ func main() {
 	if err != nil {
 		vf.Fatal("%v", err)
 	}
-	if _, err := regen.Generate(spec, regen.Features("paths/server", "paths/client"), sc.Path("api"), "api"); err != nil {
+	opts := regen.Features("paths/server", "paths/client")
+	opts.Generator.IgnoreNotImplemented = []string{"all"} // one security alternative names an unimplemented scheme
+	if _, err := regen.Generate(spec, opts, sc.Path("api"), "api"); err != nil {
 		if strings.HasPrefix(err.Error(), "PANIC") {
 			r.Violation(map[string]string{"class": "generator-panic"}, 0, map[string]any{"error": err.Error()})
 			r.Finish("generation panicked")
